@@ -45,6 +45,25 @@ pub enum Answer {
 /// that existed at this point (for the explorer).
 pub trait Chooser: Send {
     fn choose(&mut self, idx: usize, kind: Kind, len: usize, is_async: bool) -> Answer;
+    /// kind of the I/O errors this chooser injects
+    fn fault_kind(&self) -> io::ErrorKind {
+        io::ErrorKind::Other
+    }
+}
+
+/// fail-stop from call `k` on, with a chosen error kind
+pub struct FailFromKind(pub usize, pub io::ErrorKind);
+impl Chooser for FailFromKind {
+    fn choose(&mut self, idx: usize, _: Kind, _: usize, _: bool) -> Answer {
+        if idx >= self.0 {
+            Answer::Fail
+        } else {
+            Answer::Full
+        }
+    }
+    fn fault_kind(&self) -> io::ErrorKind {
+        self.1
+    }
 }
 
 /// optional short transfer at one call, and a transient failure at another call
@@ -169,14 +188,16 @@ pub struct Core {
     pub closed: bool,
     pub ops_after_close: u64,
     pub failed_once: bool,
+    /// kind of the injected I/O errors (a stream may fail with any kind)
+    pub fault_kind: io::ErrorKind,
     /// async: state of an operation that is currently answering Pending
     pending: Option<(Kind, u32, usize, u32)>,
     pub record_data: bool,
 }
 
 impl Core {
-    fn fault() -> io::Error {
-        io::Error::new(io::ErrorKind::Other, "injected stream fault")
+    fn fault_of(kind: io::ErrorKind) -> io::Error {
+        io::Error::new(kind, "injected stream fault")
     }
     fn do_read(&mut self, buf: &mut [u8], limit: usize, pendings: u32) -> usize {
         let start = (self.pos as usize).min(self.data.len());
@@ -242,6 +263,7 @@ pub struct Handle(pub Arc<Mutex<Core>>);
 
 impl Handle {
     pub fn new(data: Vec<u8>, chooser: Box<dyn Chooser>) -> Self {
+        let fk = chooser.fault_kind();
         Handle(Arc::new(Mutex::new(Core {
             data,
             pos: 0,
@@ -251,12 +273,17 @@ impl Handle {
             closed: false,
             ops_after_close: 0,
             failed_once: false,
+            fault_kind: fk,
             pending: None,
             record_data: false,
         })))
     }
     pub fn record_data(self) -> Self {
         self.0.lock().unwrap().record_data = true;
+        self
+    }
+    pub fn fault_kind(self, kind: io::ErrorKind) -> Self {
+        self.0.lock().unwrap().fault_kind = kind;
         self
     }
     pub fn at(self, pos: u64) -> Self {
@@ -301,11 +328,11 @@ impl Read for SyncStream {
         match c.next_answer(Kind::Read, avail, false) {
             Answer::Fail => {
                 c.log_fail(Kind::Read, buf.len());
-                Err(Core::fault())
+                Err(Core::fault_of(c.fault_kind))
             }
             Answer::FailTransient => {
                 c.log_fail_transient(Kind::Read, buf.len());
-                Err(Core::fault())
+                Err(Core::fault_of(c.fault_kind))
             }
             Answer::Short(n) => Ok(c.do_read(buf, n, 0)),
             _ => Ok(c.do_read(buf, usize::MAX, 0)),
@@ -335,11 +362,11 @@ impl Write for SyncStream {
         match c.next_answer(Kind::Write, buf.len(), false) {
             Answer::Fail => {
                 c.log_fail(Kind::Write, buf.len());
-                Err(Core::fault())
+                Err(Core::fault_of(c.fault_kind))
             }
             Answer::FailTransient => {
                 c.log_fail_transient(Kind::Write, buf.len());
-                Err(Core::fault())
+                Err(Core::fault_of(c.fault_kind))
             }
             Answer::Short(n) => Ok(c.do_write(buf, n, 0)),
             _ => Ok(c.do_write(buf, usize::MAX, 0)),
@@ -357,11 +384,11 @@ impl Write for SyncStream {
         match c.next_answer(Kind::Flush, 0, false) {
             Answer::Fail => {
                 c.log_fail(Kind::Flush, 0);
-                Err(Core::fault())
+                Err(Core::fault_of(c.fault_kind))
             }
             Answer::FailTransient => {
                 c.log_fail_transient(Kind::Flush, 0);
-                Err(Core::fault())
+                Err(Core::fault_of(c.fault_kind))
             }
             _ => {
                 let pos = c.pos;
@@ -377,11 +404,11 @@ impl Seek for SyncStream {
         match c.next_answer(Kind::Seek, 0, false) {
             Answer::Fail => {
                 c.log_fail(Kind::Seek, 0);
-                Err(Core::fault())
+                Err(Core::fault_of(c.fault_kind))
             }
             Answer::FailTransient => {
                 c.log_fail_transient(Kind::Seek, 0);
-                Err(Core::fault())
+                Err(Core::fault_of(c.fault_kind))
             }
             _ => c.do_seek(to, 0),
         }
@@ -409,11 +436,11 @@ fn async_gate(c: &mut Core, kind: Kind, len: usize, cx: &mut Context<'_>) -> Res
     match c.next_answer(kind, len, true) {
         Answer::Fail => {
             c.log_fail(kind, len);
-            Err(Core::fault())
+            Err(Core::fault_of(c.fault_kind))
         }
         Answer::FailTransient => {
             c.log_fail_transient(kind, len);
-            Err(Core::fault())
+            Err(Core::fault_of(c.fault_kind))
         }
         Answer::Full => Ok(Some((usize::MAX, 0))),
         Answer::Short(n) => Ok(Some((n, 0))),
